@@ -8,7 +8,7 @@ wt=/tmp/conf-$$
 git -C /repo worktree add --detach "$wt" HEAD >/dev/null 2>&1 || exit 2
 (cd /verif/.cache/pb && find . -type f | while read f; do mkdir -p "$wt/$(dirname $f)"; cp "$f" "$wt/$f"; done)
 demo_path=$(jq -r .demo_path_in_repo "$sd/meta.json" | grep -oE '[A-Za-z0-9_./-]+' | head -1)
-demo_file=$(ls "$sd" | grep -v -E '^(patch.diff|meta.json)$' | head -1)
+demo_file=$(basename "$demo_path"); [ -f "$sd/$demo_file" ] || demo_file=$(ls "$sd" | grep -v -E '^(patch.diff|meta.json)$' | head -1)
 demo_dir=$(dirname "$demo_path")
 case "$demo_path" in *.go) ;; *) demo_dir="$demo_path"; demo_path="$demo_path/$demo_file";; esac
 mkdir -p "$wt/$demo_dir"; cp "$sd/$demo_file" "$wt/$demo_path"
